@@ -218,9 +218,49 @@ Theorem c13_subset_columns : forall m n_cols n_rows chosen,
 Proof. exact subset_columns_exact. Qed.
 Print Assumptions c13_subset_columns.
 
-(* NOT YET PROVED (statements kept; the correspondence check covers them by testing):
-   c13_amalgamate      : amalgamate_csr pieces n = Ok out ->
-       dense_of out = concatenation of the dense views of the pieces *)
+(* ---- amalgamate_h5ad.  A source is a CSR matrix (SrcSparse; a CSC source enters as the
+   CSR arrays of the same matrix, its transposition being c13_transpose_exact) or a dense
+   array (SrcDense) together with the list of rows taken from it; source_ok nc: the
+   matrix is well formed with nc columns and stores no (row, column) pair twice, the row
+   list is non-empty, duplicate-free and in range (other lists are refused:
+   c05_get_batch_rejects).  amalgamate_to_dense / amalgamate_to_csr are the bodies of
+   the entry points the correspondence check drives (c13_amalgamate_wire).
+   For EVERY list of admissible sources, with D = the selected rows of source 1 in the
+   requested order, then those of source 2, ... (source_rows reads them off the dense
+   views):
+   - the dense destination is exactly D;
+   - the sparse destination, told the total number of rows, is a well-formed
+     duplicate-free CSR matrix whose dense view is D: both destinations agree. *)
+Theorem c13_amalgamate : forall srcs nc,
+  Forall (source_ok nc) srcs ->
+  let D := concat (map (source_rows nc) srcs) in
+  amalgamate_to_dense srcs = Ok D /\
+  exists out, amalgamate_to_csr srcs (length D) = Ok out /\
+    wf_csr out (length D) nc /\ no_dup_minor out /\ dense_of out (length D) nc = D.
+Proof. exact amalgamate_exact. Qed.
+Print Assumptions c13_amalgamate.
+
+(* the joining step on its own (amalgamate_csr_to_x = merge_csr + the row count): pieces
+   of n_k rows are joined into a well-formed matrix of sum n_k rows whose dense view is
+   the concatenation of theirs, which is what amalgamate_dense_to_x writes *)
+Theorem c13_amalgamate_join : forall pieces ns nc,
+  Forall2 (fun p n => wf_csr p n nc /\ no_dup_minor p) pieces ns ->
+  exists out, amalgamate_csr pieces (sum_list ns) = Ok out /\
+    wf_csr out (sum_list ns) nc /\ no_dup_minor out /\
+    dense_of out (sum_list ns) nc =
+    concat (map (fun pn => dense_of (fst pn) (snd pn) nc) (combine pieces ns)) /\
+    dense_of out (sum_list ns) nc =
+    amalgamate_dense (map (fun pn => dense_of (fst pn) (snd pn) nc) (combine pieces ns)).
+Proof. exact amalgamate_csr_exact. Qed.
+Print Assumptions c13_amalgamate_join.
+
+(* entry points 1305 / 1306 = amalgamate_to_csr / amalgamate_to_dense on the decoded wire *)
+Theorem c13_amalgamate_wire : forall srcs nr ss n,
+  sx_list sx_source srcs = Some ss -> sx_nat nr = Some n ->
+  run_amalgamate_sparse (L [srcs; nr]) = of_res of_comp (amalgamate_to_csr ss n) /\
+  run_amalgamate_dense srcs = of_res of_dense (amalgamate_to_dense ss).
+Proof. exact run_amalgamate_decoded. Qed.
+Print Assumptions c13_amalgamate_wire.
 
 (* ---- non-vacuity: a 3 x 4 matrix (indices_max = 3 rows, 4 columns) in CSC form with
    an empty column and an empty row satisfies the hypotheses, and the function run
@@ -316,4 +356,29 @@ Proof.
   split; [split; [exact W | split; [exact HP | exact HD]]|].
   split; [repeat (apply Forall_cons; [lia|]); apply Forall_nil|].
   vm_compute. split; reflexivity.
+Qed.
+
+(* amalgamate: rows [3; 0] of the 4 x 3 CSR reading of c13_ex and row [1] of a dense
+   2 x 3 array are admissible sources; both destinations hold the same 3 rows *)
+Definition c13_srcs : list source :=
+  [SrcSparse c13_ex 3 [3; 0]; SrcDense [[1; 0; 2]; [0; 0; 4]]%Z 2 [1]].
+Example c13_example_amalgamate :
+  Forall (source_ok 3) c13_srcs /\
+  concat (map (source_rows 3) c13_srcs) = [[8; 0; 9]; [5; 0; 6]; [0; 0; 4]]%Z /\
+  amalgamate_to_dense c13_srcs = Ok [[8; 0; 9]; [5; 0; 6]; [0; 0; 4]]%Z /\
+  amalgamate_to_csr c13_srcs 3 =
+    Ok {| ptr := [0; 2; 4; 5]; idx := [0; 2; 0; 2; 2]; dat := [8; 9; 5; 6; 4]%Z |}.
+Proof.
+  destruct c13_example_wf as (W & HP & HD & ND).
+  split.
+  - constructor; [|constructor; [|constructor]].
+    + cbn [source_ok]. split; [reflexivity|].
+      split; [split; [exact W | split; [reflexivity | exact HD]]|]. split; [exact ND|].
+      split; [discriminate|]. split; [repeat (apply NoDup_cons; [cbn [In]; lia|]); apply NoDup_nil|].
+      cbn. repeat (apply Forall_cons; [lia|]). apply Forall_nil.
+    + cbn [source_ok]. split; [reflexivity|].
+      split; [repeat (apply Forall_cons; [reflexivity|]); apply Forall_nil|].
+      split; [discriminate|]. split; [repeat (apply NoDup_cons; [cbn [In]; lia|]); apply NoDup_nil|].
+      repeat (apply Forall_cons; [lia|]). apply Forall_nil.
+  - vm_compute. repeat split; reflexivity.
 Qed.
